@@ -238,15 +238,32 @@ def p_two_runs_points():
     return seq(*(a + b))
 
 
+def p_points_norewind(xs, settle="sleep", two_streams=False):
+    """a detector that cannot be rewound (what trigger_and_read's rewindable_wrapper does): per point
+    checkpoint; rewindable False; set; wait; create; read; read; save; rewindable True; settle (cached); null"""
+    body = [m("stage", 0), m("open_run")]
+    for j, x in enumerate(xs):
+        g = "n%d" % j
+        body += [m("checkpoint"), m("rewindable", None, [False]), m("set", 1, [x], {"group": g}), m("wait", None, [], {"group": g}),
+                 m("create", None, [], {"name": "primary"}), m("read", 1), m("read", 2), m("save")]
+        if two_streams:
+            body += [m("create", None, [], {"name": "other"}), m("read", 2), m("save")]
+        body += [m("rewindable", None, [True]), m("sleep", None, [0.1]) if settle == "sleep" else m("null"), m("null")]
+    body += [m("close_run"), m("unstage", 0)]
+    return seq(*body)
+
+
 C03_PLANS = [
     ("points3", lambda: p_points((1, 2, 3))),
     ("points2s", lambda: p_points((5, 7), two_streams=True)),
     ("points2k", lambda: p_points((2, 4), keys=True)),
     ("tworuns", p_two_runs_points),
+    ("norw3", lambda: p_points_norewind((1, 2, 3))),
+    ("norw2n", lambda: p_points_norewind((4, 6), settle="null", two_streams=True)),
     ("count", lambda: ["builtin", "count", [1, 2], 3]),
     ("scan", lambda: ["builtin", "scan", [2], 1, 0, 4, 3]),
 ]
-C03_LEN = {"points3": 25, "points2s": 24, "points2k": 18, "tworuns": 37, "count": 33, "scan": 36}
+C03_LEN = {"norw3": 37, "norw2n": 32, "points3": 25, "points2s": 24, "points2k": 18, "tworuns": 37, "count": 33, "scan": 36}
 
 
 def c03_cases(rng, tier):
